@@ -804,7 +804,7 @@ func init() {
 	register(&Engine{Name: "matrix-c03", Props: []string{"C03"}, Cases: c03Cases, Run: c03Run})
 	propMeta["C03"] = PropMeta{
 		Level: "exploration",
-		Rule:  "one case per pipeline configuration (compression x level x encryption x signature x record size x write cache x drive-kind flag); each writes 9 size classes (0,1,511,512,513,record-1,record,record+1,3 records+7; zeros/random/text) through the filesystem and 9 through Operations.Archive (some replaced through Update), plus a never-written file, and reads every file back through File.Read, Operations.Restore and recovery.Fetch on the live and on a rebuilt instance; non-trivial = at least 5 non-empty files round-tripped; distinct = distinct configuration; every configuration also carries one incompressible 330001-byte file (several codec blocks) and every compression x encryption pair is in the quick tier; a third of the batched members have an Info.Size() that is off by +9 / -7 bytes (source changed after the scan: the recorded size has to be the content's); 'far' cases: two sparse members of 2 GiB each are appended the way a tar writer would, the index is rebuilt, and files written behind byte 2^31 and 2^32 of the tape are read back through all three paths",
+		Rule:  "one case per pipeline configuration (compression x level x encryption x signature x record size x write cache x drive-kind flag); each writes 9 size classes (0,1,511,512,513,record-1,record,record+1,3 records+7; zeros/random/text) through the filesystem and 9 through Operations.Archive (some replaced through Update), plus a never-written file, and reads every file back through File.Read, Operations.Restore and recovery.Fetch on the live and on a rebuilt instance; non-trivial = at least 5 non-empty files round-tripped; distinct = distinct configuration; every configuration also carries one incompressible 330001-byte file (several codec blocks) and every compression x encryption pair is in the quick tier; a third of the batched members have an Info.Size() that is off by +9 / -7 bytes (source changed after the scan: the recorded size has to be the content's); 'far' cases: two sparse members of 2 GiB each are appended the way a tar writer would, the index is rebuilt, and files written behind byte 2^31 and 2^32 of the tape are read back through all three paths; every file is also read with ONE positioned read covering most of it (full count, nil error)",
 		Assumptions: []string{
 			"tape-mode codec parameters are exercised by handing the writer DriveIsRegular=false over a regular file; a real tape device is not available",
 			"contents are bounded by 3 records + 7 bytes (<= ~1.5 MiB at record size 1024)",
